@@ -62,7 +62,7 @@ def gen_plan(rng, tier):
         elif r < 0.26:
             ops.append({"op": rng.choice(["del_dict", "clear_dict"]), "param": rng.choice(["S", "tau_exp", "N_sigma"]), "ens": rng.choice(["A", "B2", "ens_c", "Dd"])})
         elif r < 0.56:
-            ops.append({"op": "gm", "i": rng.randrange(64), "kw": gen_kw(rng), "via": rng.choice(["method", "method", "alias", "vector", "cobs", "corr"]),
+            ops.append({"op": "gm", "i": rng.randrange(64), "kw": gen_kw(rng), "via": rng.choice(["method", "method", "alias", "vector", "cobs", "corr", "fit_result"]),
                         "j": rng.randrange(64), "twice": rng.random() < 0.4})
         elif r < 0.61:
             ops.append({"op": "gm_invalid", "i": rng.randrange(64), "param": rng.choice(["S", "tau_exp", "N_sigma"]), "value": rng.choice(INVALID)})
@@ -342,6 +342,28 @@ def execute(plan, ctx):
                     targets.append(j)
             before = [objs.data_digest(pool[t]) for t in targets]
             kw = dict(op["kw"])
+            if op["via"] == "fit_result":
+                # Fit_result.gamma_method: the fit parameters are analysed through the result object
+                try:
+                    ys = [pool[(i + t_) % len(pool)] for t_ in range(3)]
+                    for y_ in ys:
+                        y_.gamma_method()
+                    fr = pe.fits.least_squares([1.0, 2.0, 3.0], ys, lambda p_, x_: p_[0] + p_[1] * x_, silent=True)
+                    fr.gamma_method(**kw)
+                except Exception:
+                    for t_ in range(3):
+                        analysed[(i + t_) % len(pool)] = False
+                    continue
+                for t_ in range(3):
+                    analysed[(i + t_) % len(pool)] = True
+                check_globals(ctx, model, "gamma_method")
+                fft = kw.get("fft", True) is not False
+                for o in fr.fit_parameters:
+                    eff = model.effective(o.e_names, kw)
+                    if sanity(ctx, o) and totals_ok(ctx, o):
+                        check_gm(ctx, ref, o, eff, fft, "%d ops, via Fit_result" % oi, "proj")
+                    ctx.sig("gm", "fit_result", _src(eff, o.mc_names[0]) if o.mc_names else "-")
+                continue
             try:
                 if op["via"] == "method":
                     pool[i].gamma_method(**kw)
